@@ -7,6 +7,7 @@ from geometry_tools.automata import fsa
 from geometry_tools.representation import Representation
 from geometry_tools import projective as pr
 from contracts.fsa_model import Model, all_deterministic_automata
+from contracts.c10 import build_by_route, ROUTES
 
 P = "C06"
 R = "geometry_tools/representation.py:"
@@ -53,13 +54,13 @@ def expected_words(M, starts, L, maxlen, start_state, end_state):
     return out
 
 
-def check_enumeration(rep_, d, starts, L, inp, memo_reuse=True):
+def check_enumeration(rep_, d, starts, L, inp, memo_reuse=True, route="graph_dict"):
     M = Model.from_graph_dict(d)
     labels = sorted({l for nb in d.values() for l in nb})
     if not labels:
         labels = ["a"]
     rep, mats = make_rep(labels)
-    A = fsa.FSA(copy.deepcopy(d), list(starts))
+    A = build_by_route(d, list(starts), route)
     for maxlen in (True, False):
         for with_words in (True, False):
             states = [(None, None)] + [(s, None) for s in sorted(M.V, key=repr)] + [(None, s) for s in sorted(M.V, key=repr)]
@@ -112,8 +113,9 @@ def small_automata(tier, rng, rep):
         n = len(d)
         # the automaton's default start state is not always the state named 0 (a falsy name)
         st_ = [0] if n == 1 or ci % 3 else [n - 1]
-        inp = {"graph_dict": {str(k): v for k, v in d.items()}, "start": st_}
-        rep.attempt("enumeration_runs", inp, lambda: check_enumeration(rep, d, st_, 4 if n < 3 else 3, inp))
+        route = ROUTES[ci % len(ROUTES)] if n >= 2 else "graph_dict"
+        inp = {"graph_dict": {str(k): v for k, v in d.items()}, "start": st_, "construction_route": route}
+        rep.attempt("enumeration_runs", inp, lambda: check_enumeration(rep, d, st_, 4 if n < 3 else 3, inp, route=route))
         rep.case(key=(repr(d),), nontrivial=sum(len(v) for v in d.values()) >= 2, sample=inp if rep.evaluations == 40 else None)
         if len(rep.failures) >= 3:
             return
